@@ -235,10 +235,11 @@ CHECK_DEADLOCK FALSE
 def parser_model(run):
     """Machine P (PlusCal): termination with fairness and no state constraint, ProgramOrErrors, PrefixRejected over every
     lexeme sequence of the family; every input is then parsed by the real parser."""
-    # (the inputs are the initial states of the PlusCal machine, which TLC builds in one thread: 19^4 inputs of the small
-    # alphabet and 33^3 of the full one did not finish within 25 - 40 minutes, so the thorough tier adds the full alphabet
-    # at depth 2 to the quick tier's plan)
-    plan = [("small", 3), ("exprB", 3), ("exprA", 2)] if run.tier == "quick" else [("small", 3), ("all", 2), ("exprB", 4), ("exprA", 3)]
+    # (the input sets are built without unions - TLC's union compares every new element with every old one, which made
+    # 19^4 inputs take longer than 40 minutes; measured now, 8 workers: small 3 43 s (1.1 M states), exprB 4 81 s (2.0 M),
+    # exprA 3 45 s (0.8 M), all 3 312 s (8.7 M), small 4 1157 s (30 M))
+    plan = ([("small", 3), ("exprB", 3), ("exprA", 2)] if run.tier == "quick"
+            else [("small", 4), ("all", 3), ("exprB", 4), ("exprA", 3)])
     sts = run.tlc_many([dict(module="MC_Parser", cfg=PARSER_CFG % (n, ls), name="MC_Parser_%s_%d" % (ls, n), timeout=6000, workers=8)
                         for ls, n in plan], parallel=2)
     for st in sts:
@@ -258,11 +259,15 @@ def c08(run):
         path, n = run.records(st)
         run.replay("tree", path, name="tree-" + fam)
     return lexer_check(run, "C08",
-                       "machine P (spec/TwParser.tla, PlusCal, one procedure per parser function): every sequence of up to 3 "
-                       "(thorough: 4) mode-closed lexemes (text, {{ }} blocks incl. malformed ones, @if/@elseif/@else/@end, "
-                       "@each, @insert, @component, @slot) optionally ended by one of 18 constructs cut in the middle; TLC "
-                       "proves Termination under fairness without a state constraint and checks ProgramOrErrors / "
-                       "PrefixRejected; every input is parsed by the real parser under a watchdog; plus: "
+                       "machine P (spec/TwParser.tla, PlusCal, one procedure per parser function, the whole Pratt loop with its "
+                       "precedence table): every sequence of up to 3 (thorough: 4) mode-closed lexemes (text, {{ }} blocks incl. "
+                       "malformed ones, @if/@elseif/@else/@end, @each, @for, @insert, @component with slots, @slot, illegal "
+                       "characters; thorough: the full alphabet at depth 3) optionally ended by one of 26 constructs cut in the "
+                       "middle, and every sequence of up to 3 (thorough: 4) of 13 expression tokens / up to 2 (3) of 24 between "
+                       "'{{' and '}}' and cut off by the end of the input; TLC proves Termination under fairness without a state "
+                       "constraint and checks ProgramOrErrors / PrefixRejected / IllegalRejected / SlotsOwned; every input is "
+                       "parsed by the real parser under a watchdog (token types of the expression inputs compared with the "
+                       "real lexer's); plus: "
                        "same inputs as C05; lexing and parsing must return, with a program xor recorded errors that carry "
                        "a line; inputs the model ends in an error token (unterminated comment / string, illegal byte in "
                        "code) must be rejected; non-trivial = must-be-rejected inputs")
